@@ -1,7 +1,7 @@
 (* C02 -- MDIB version counters are monotonic, gap-free and referentially consistent.
    Property theorems only (model: Mdib/Model.v, proofs: Mdib/Proofs.v). *)
 From Coq Require Import List ZArith.
-From SDC Require Import Mdib.Model Mdib.Proofs.
+From SDC Require Import Mdib.Model Mdib.Proofs Mdib.Proofs_Ctx.
 Import ListNotations.
 Open Scope Z_scope.
 
@@ -46,6 +46,21 @@ Proof.
                 (proj2 (proj2 (state_tx_frame k m acts Hk Ho)))).
 Qed.
 Print Assumptions C02_state_tx_strict.
+
+(* context transactions (mk_context_state with explicit or generated handle, get_context_state, disassociate_all,
+   deletion through the entity interface - any sequence of calls, rejected ones abandon the transaction): the
+   version of every context state handle - or the version remembered for it while absent, so also across delete
+   and re-create - never decreases; a changed context state has StateVersion + 1; descriptors and single states
+   are untouched; every context state keeps referring to an existing context descriptor and carries its
+   DescriptorVersion *)
+Theorem C02_context_tx : forall m acts, ctx_only acts -> fresh_ok m acts ->
+  let m' := fst (transaction 5 None acts m) in
+  ((forall h, ev_c m h <= ev_c m' h) /\
+   (forall h c c', cstates m h = Some c -> cstates m' h = Some c' -> c' <> c -> c_ver c' = c_ver c + 1) /\
+   descrs m' = descrs m /\ states m' = states m) /\
+  (cstates_consistent m -> cstates_consistent m').
+Proof. exact (fun m acts Ho Hf => conj (ctx_tx_versions m acts Ho Hf) (ctx_tx_consistent m acts Ho Hf)). Qed.
+Print Assumptions C02_context_tx.
 
 Example C02_nonvacuous :
   let m := mkMdib (fun h => if Z.eqb h 7 then Some (mkDescr None K_METRIC 2 1) else None)
